@@ -56,6 +56,22 @@ def computeRun {ρ : Type} (f : Nat → ρ) (s : DS ρ) (batch : Nat) (hb : 0 < 
   let bs := rankBatches (pending s.status) 1 0 batch hb
   (bs.foldl (applyBatch f) s, bs.flatten)
 
+/-- `status[:k] = 1` on a list (numpy clips `k` to the length) -/
+def markPrefix (status : List Nat) (k : Nat) : List Nat :=
+  List.replicate (min k status.length) 1 ++ status.drop k
+
+/-- `__create_compute_status_dataset`: the completion marks `compute()` starts from.  An existing status
+    dataset is used as it is; otherwise a zero-filled one is created and, when the results group carries the
+    legacy attribute `last_pixel = k` with `k > 0`, its first `k` entries are marked (`last_pixel` is the NUMBER
+    of finished positions, not the index of the last one) -/
+def initialStatus (n : Nat) (existing : Option (List Nat)) (lastPixel : Option Int) : List Nat :=
+  match existing with
+  | some s => s
+  | none =>
+    match lastPixel with
+    | some k => if k > 0 then markPrefix (List.replicate n 0) k.toNat else List.replicate n 0
+    | none => List.replicate n 0
+
 /-- `parallel_compute(data, f, cores)` as a value: order preserving map; `cores` is irrelevant -/
 def parallelCompute {α β : Type} (f : α → β) (data : List α) (_cores : Nat) : List β := data.map f
 
